@@ -97,6 +97,13 @@ func main() {
 		slog.SetDefault(slog.New(slog.NewTextHandler(io.Discard, &slog.HandlerOptions{Level: slog.LevelDebug - 8})))
 		c.Count("processes_whose_default_logger_records_everything", 1)
 	}
+	if os.Getenv("VMON_NOTZ") != "" {
+		if _, err := time.LoadLocation("Europe/Paris"); err == nil {
+			fmt.Fprintln(os.Stderr, "vmon: asked to run without a time zone database, but one can be loaded")
+		} else {
+			c.Count("processes_without_a_time_zone_database", 1)
+		}
+	}
 	selfTest(c)
 	m(c, rc)
 	c.Finish()
